@@ -200,6 +200,7 @@ var settingValues = []string{"", " ", "yes", "no", "maybe", "yes yes", ".", ".."
 
 var pathValues = []string{".", "..", "...", "Nested", "Nested.Name", "Ptr", "Ptr.Name", ".Name", "Name.", "Nested..Name", "Name Name", "Nested.Name Name", ". Name", ". Nested", "Nested Nested | Custom",
 	"Nested.Name Name | F", "Name | F", "Name Name | FE", "Name | WithCtx", "Age Name", "Name Age", "list Name", "Kind", "Kind Kind", "Ptr Nested", "Nested Ptr", "Ptr.Name Name", "Ptr.Name.X Name", "Name.X Name",
+	"PS", "PP", "PL", "PM", "Fn", "If", "Arr", "PS Name", "PP.Name Name", "PL Name", "PM.Name Name", "Fn Nested", "Fn.Name Name", "If Name", "If.Name Name", "Arr.Name Name", "PS.X Name",
 	"Extra", "Name Extra", ". Extra | New", "Extra | New", "Nested.Name Extra", "nested", "NAME", "name Name", "Nested.name Name", "", " ", "Name |", "| F", "Name Extra | p:F", "Name Extra | :F", "Name Extra | F F"}
 
 var keyValues = map[string][]string{
@@ -259,7 +260,7 @@ func fuzzDirective(r *rand.Rand) string {
 }
 
 const directiveBase = `
-type Source struct { Name string; Age int; Nested NestedS; Ptr *NestedS; Kind SKind; list []int }
+type Source struct { Name string; Age int; Nested NestedS; Ptr *NestedS; Kind SKind; list []int; PS *string; PP **NestedS; PL *[]int; PM *map[string]NestedS; Fn func() NestedS; If any; Arr [2]NestedS }
 type NestedS struct { Name string }
 type Target struct { Name string; Age int; Nested NestedT; Ptr *NestedT; Kind TKind; Extra string }
 type NestedT struct { Name string }
@@ -343,5 +344,79 @@ func FuzzArgvCase(r *rand.Rand, name string) *Case {
 	}
 	c.Feature("fuzz", "argv")
 	c.Note = strings.Join(argv, " ")
+	return c
+}
+
+const methodSetBase = `
+type A struct { V int; Kids []A; P *A; N NA; Tags []string }
+type NA struct{ X int }
+type B struct { V int; Kids []B; P *B; N NB; Tags []string; Extra string }
+type NB struct{ X int }
+type Ctx struct{ ID string }
+func NewB() B { return B{Extra: "new"} }
+func NewPB() *B { return &B{Extra: "new"} }
+func Stamp(a A) string { return "s" }
+func StampP(a *A) string { return "p" }
+func FailN(n NA) (NB, error) { return NB{X: n.X}, nil }
+// goverter:context c
+func CtxN(n NA, c Ctx) NB { return NB{X: n.X} }
+`
+
+// FuzzMethodSetCase: a converter with 2-4 methods over one recursive type family in pointer / value / container / update
+// variants, each with random field and flag settings: the methods reuse and constrain each other (lookup of sibling
+// signatures, overlapping struct settings, sub-methods created for the recursion, update methods outside the lookup table).
+func FuzzMethodSetCase(r *rand.Rand, name string) *Case {
+	sigs := []string{
+		"(source A) B", "(source *A) *B", "(source A) *B", "(source *A) B", "(source []A) []B", "(source []*A) []*B", "(source map[string]A) map[string]*B",
+		"(source A, target *B)", "(source *A, target *B)", "(target *B, source A)", "(source NA) NB", "(source *NA) *NB", "(source []A) []*B", "(source **A) *B",
+	}
+	mlines := []string{"ignore Extra", "ignore Extra Tags", "map V Extra", "ignoreMissing", "matchIgnoreCase", "default NewB", "default NewPB", "autoMap N", "autoMap P", "map . Extra | Stamp", "map . Extra | StampP",
+		"map N.X V", "map P.V V", "useZeroValueOnPointerInconsistency", "skipCopySameType", "update:ignoreZeroValueField", "default:update", "ignoreUnexported", "map Kids Kids", "ignore Kids", "ignore P", "wrapErrors", "context ctx"}
+	clines := []string{"ignoreMissing", "skipCopySameType", "useZeroValueOnPointerInconsistency", "extend FailN", "extend CtxN", "wrapErrors", "matchIgnoreCase", "update:ignoreZeroValueField:struct", "default:update", "output:format function"}
+	var sb strings.Builder
+	sb.WriteString("package p\n" + methodSetBase + "\n// goverter:converter\n")
+	for _, l := range clines {
+		if r.Intn(5) == 0 {
+			sb.WriteString("// goverter:" + l + "\n")
+		}
+	}
+	sb.WriteString("type Converter interface {\n")
+	n := 2 + r.Intn(3)
+	used := map[string]bool{}
+	var note []string
+	for i := 0; i < n; i++ {
+		sig := sigs[r.Intn(len(sigs))]
+		if used[sig] {
+			continue
+		}
+		used[sig] = true
+		update := strings.Contains(sig, "target *B")
+		if update {
+			sb.WriteString("\t// goverter:update target\n")
+		}
+		for k := r.Intn(3); k > 0; k-- {
+			sb.WriteString("\t// goverter:" + mlines[r.Intn(len(mlines))] + "\n")
+		}
+		full := sig
+		switch r.Intn(4) {
+		case 0:
+			// error result
+			if update {
+				full = sig + " error"
+			} else {
+				full = sig[:strings.LastIndex(sig, ") ")+2] + "(" + sig[strings.LastIndex(sig, ") ")+2:] + ", error)"
+			}
+		case 1:
+			// context parameter
+			full = strings.Replace(sig, ")", ", ctx Ctx)", 1)
+			sb.WriteString("\t// goverter:context ctx\n")
+		}
+		fmt.Fprintf(&sb, "\tM%d%s\n", i, full)
+		note = append(note, full)
+	}
+	sb.WriteString("}\n")
+	c := RawCase(name, map[string]string{"p/input.go": sb.String()}, nil, []string{"./p"})
+	c.Feature("fuzz", "methodset")
+	c.Note = strings.Join(note, " ; ")
 	return c
 }
